@@ -117,7 +117,8 @@ def check_pairs(ck, tier, found):
         t = r['task']
         if t.get('kind') != 'triples': continue
         ck.stubs |= set(r.get('models', []))
-        if r.get('error'): ck.inconc('three-body search %s: %s' % (t['label'], r['error'])); continue
+        if r.get('error') and not r.get('results'): ck.inconc('three-body search %s: %s' % (t['label'], r['error'])); continue
+        if r.get('error'): ck.inconc('three-body search %s: %s' % (t['label'], r['error']))
         ck.add_witness('%s: %d paths' % (t['label'], r['npaths']), r['npaths'] >= 1)
         bads = [b for k, b in r['results'] if b]; unk = [b for b in bads if b[0] == 'unknown']; real = [b for b in bads if b[0] != 'unknown']
         name = '%s, 3 beads anywhere around a cubic box 2.5, cutoff 1: exactly the triples (centre; {j,k}) allowed by the type lists with both centre distances below the cutoff are delivered, once each, never with a bead twice' % t['label']
@@ -223,9 +224,10 @@ def triple_task(t):
         kk = max(0, min(k, 32))
         return k, [sgn64(it.load(Ptr(ids.obj, 8 * i), 8)) for i in range(3 * kk)], {(i, j): read_doubles(it, Ptr(sc.obj, 8 * 4 * (i * n + j)), 4) for i in range(n) for j in range(n) if i != j}
     try:
-        res, st = explore(mod, models.all_models(), body, parsed=parsed, max_paths=4000, timeout=900)
+        res, st = explore(mod, models.all_models(), body, parsed=parsed, max_paths=400, timeout=150, partial=True)
     except symx.Unsupported as ex:
         return {'task': t, 'error': 'Unsupported: %s' % ex, 'results': [], 'npaths': 0}
+    if st.get('truncated'): res = res[:60]
     cand = expected_triples(t); cR = z3.RealVal(c); out = []
     for it, (k, ids, sc) in res:
         pc = list(it.pc); bad = None
@@ -245,7 +247,9 @@ def triple_task(t):
             if st_ == 'sat': bad = ('triple (centre %d; %d,%d) %s although %s' % (ce, j, k2, 'delivered' if present else 'missing', 'a centre distance is not below the cutoff' if present else 'both centre distances are below the cutoff'), mdl)
             elif st_ == 'unknown': bad = ('unknown', None)
         out.append((k, bad))
-    return {'task': t, 'results': out, 'npaths': len(res), 'instructions': st['instructions'], 'models': sorted(st['models_used'])}
+    r = {'task': t, 'results': out, 'npaths': len(res), 'instructions': st['instructions'], 'models': sorted(st['models_used'])}
+    if st.get('truncated') and not any(b and b[0] != 'unknown' for k, b in out): r['error'] = 'exploration truncated (%s) and no failure on the explored paths' % st['truncated']
+    return r
 
 def _model(pc):
     s = z3.Solver(); s.set('timeout', 30000); s.add(*smt.purify(list(pc)))
